@@ -278,3 +278,24 @@ def run(F, S, R, tier):
         else:
             R.ok("fieldcov/store-cache-fields", "StoreCache has exactly the %d reviewed caches" % len(want), ["store/src/cache.rs"])
     R.guard("fieldcov/store-cache-fields", cache_fields)
+
+    # the cycles of a block and the fees / cycles recorded in its ext cover EVERY non-cellbase transaction, whether its result came from the cache
+    # or was computed (round-2 seed C14-seed4 filtered the cache-served entries out before the sum): between the per-transaction results and the
+    # sum there is no narrowing step but the cellbase `skip(1)`
+    def block_sum():
+        v = [b for b in F.bodies_of_crate("ckb_verification_contextual") if re.search(r"BlockTxsVerifier::<.*>::verify$", b.path)]
+        if not v:
+            R.bad("prov/block-sum/anchor-lost", "BlockTxsVerifier::verify not found", [])
+            return
+        v = v[0]
+        R.fn(v)
+        sums = [c for c in v.calls if re.search(r"Iterator::sum$", c.callee)]
+        narrow = [c for x in [v] for c in x.calls if re.search(r"Iterator::(filter|filter_map|take|take_while|skip_while|step_by)$|::(retain|truncate|dedup\w*)$", c.callee)]
+        R.sites += len(sums) + len(narrow)
+        if not sums:
+            R.bad("prov/block-sum/anchor-lost", "the cycle sum not found in BlockTxsVerifier::verify", [v.where()])
+        elif narrow:
+            R.bad("prov/block-sum", "BlockTxsVerifier::verify narrows the per-transaction results (%s) before summing / recording them: cache-served transactions must count like computed ones" % narrow[0].callee.split("::")[-1], [narrow[0].where()])
+        else:
+            R.ok("prov/block-sum", "the block's cycle sum and recorded entries cover every non-cellbase transaction", [sums[0].where()])
+    R.guard("prov/block-sum", block_sum)
